@@ -215,6 +215,15 @@ Proof.
   intros F qs l H Hs. split; [exact (array_op_grid qs l H Hs) | exact (flat_map_opt_wf qs l H Hs)].
 Qed.
 
+(* output side, unconditional in the grid section: for EVERY query object (unique keys) and
+   every chain whose last plugin is the grid search - whatever the section contains, whatever
+   sections stub plugins added before - a successful result contains no query with a grid
+   section (this is the clause the S line checks on every implementation output) *)
+Theorem output_has_no_grid_section : forall (F : Type) (stages : list (@stage F)) (q : value F) l,
+  (forall m, q = VObj m -> NoDup (map fst m)) ->
+  run_stages (stages ++ [SGrid]) q = Ok l -> Forall (fun x => jget x grid_key = None) l.
+Proof. intros F. exact run_stages_output. Qed.
+
 Theorem run_is_a_chain : forall (F : Type) n (q : value F), run n q = run_stages (repeat SGrid n) q.
 Proof. intros F. exact run_is_run_stages. Qed.
 
@@ -240,6 +249,9 @@ Check passthrough_without_section : forall F : Type,
   /\ (forall (m : obj F) n, oget m grid_key = None -> run n (VObj m) = Ok [VObj m]).
 Check chain_spec_is_model : forall (F : Type) (stages : list (@stage F)) (q : value F) l,
   (forall m, q = VObj m -> NoDup (map fst m)) -> spec_stages stages q = Some l -> run_stages stages q = Ok l.
+Check output_has_no_grid_section : forall (F : Type) (stages : list (@stage F)) (q : value F) l,
+  (forall m, q = VObj m -> NoDup (map fst m)) ->
+  run_stages (stages ++ [SGrid]) q = Ok l -> Forall (fun x => jget x grid_key = None) l.
 Check never_panics_or_hangs : forall (F : Type) n (q : value F), crashes (run n q) = false.
 
 (* ================= non-vacuity ================= *)
@@ -299,6 +311,7 @@ Print Assumptions spec_is_model.
 Print Assumptions chain_spec_is_model.
 Print Assumptions grid_stage_on_any_state.
 Print Assumptions run_is_a_chain.
+Print Assumptions output_has_no_grid_section.
 Print Assumptions c17_nonvacuous.
 Print Assumptions c17_step_nonvacuous.
 Print Assumptions c17_chain_nonvacuous.
